@@ -233,9 +233,13 @@ func (h *History) CheckC11() []string {
 			if pr.Topic != s.Topic || !pr.Returned || pr.Err != nil {
 				continue
 			}
-			for _, id := range pr.IDs {
+			for idx, id := range pr.IDs {
 				acks, nacks := 0, 0
 				for _, r := range byID[id] {
+					// "receives every message published": the message, i.e. the UUID, payload and metadata that were published
+					if !r.Snap.Equal(pr.Snaps[idx]) {
+						v = append(v, fmt.Sprintf("replay: sub#%d received %s as %+v, published was %+v", s.Index, id, r.Snap, pr.Snaps[idx]))
+					}
 					if r.SettleT == 0 {
 						continue
 					}
